@@ -111,6 +111,21 @@ func (impl Implementation) Dgesvd(jobU, jobVT lapack.SVDJob, m, n int, a []float
 
 	// Quick return if possible.
 	if minmn == 0 {
+		if lwork != -1 {
+			// The orthogonal factors of an empty matrix are identity matrices.
+			if wantua && m > 0 {
+				if len(u) < (m-1)*ldu+m {
+					panic(shortU)
+				}
+				impl.Dlaset(blas.All, m, m, 0, 1, u, ldu)
+			}
+			if wantva && n > 0 {
+				if len(vt) < (n-1)*ldvt+n {
+					panic(shortVT)
+				}
+				impl.Dlaset(blas.All, n, n, 0, 1, vt, ldvt)
+			}
+		}
 		work[0] = 1
 		return true
 	}
